@@ -273,9 +273,17 @@ def match_expr(node, pattern, env=None):
 
 
 def match_stmts(stmts, pattern, env=None):
-    """Match a statement list (e.g. block['stmts']) against a pattern with optional `__rest;`."""
+    """Match a statement list (e.g. block['stmts']) against a pattern with optional `__rest;`.  Tried as written first, then with both sides in
+    the statement-list normal form (normalize_stmts)."""
     e = Bindings(env or {})
-    return e if _mlist(_parse("stmts", pattern), stmts, e) else None
+    if _mlist(_parse("stmts", pattern), stmts, e):
+        return e
+    e = Bindings(env or {})
+    try:
+        ps, ns = normalize_stmts(_parse("stmts", pattern)), normalize_stmts(stmts)
+    except (KeyError, TypeError, AttributeError):
+        return None
+    return e if _mlist(ps, ns, e) else None
 
 
 def find_expr(root, pattern, env=None):
@@ -597,6 +605,17 @@ def inline_helpers(ast, path, node, depth=2, exprs=False, keep=()):
                     continue
                 out.append(rec(s_, d))
             return {**n, "stmts": out}
+        # a match arm (or closure-free block-less branch) whose body is just a helper call: `K => helper(a, b),`
+        if d > 0 and "pat" in n and "body" in n and "guard" in n and isinstance(n.get("body"), dict) and n["body"].get("t") in ("Call", "MethodCall") \
+                and _callee_name(n["body"]) is not None:
+            r = prepare(n["body"], False)
+            if r is not None:
+                st, tail = r
+                if tail is not None:
+                    st = st + [{"t": "ExprStmt", "sp": tail["sp"], "expr": tail, "semi": False}]
+                blk = rec({"t": "Block", "stmts": st, "sp": n["body"]["sp"]}, d - 1)
+                return {**{k: (rec(v, d) if isinstance(v, (dict, list)) and k != "body" else v) for k, v in n.items()},
+                        "body": {"t": "BlockExpr", "sp": n["body"]["sp"], "label": None, "block": blk}}
         if exprs and n.get("t") in ("Call", "MethodCall") and d > 0 and _callee_name(n) is not None:
             r = try_expr(n)
             if r is not None:
@@ -605,7 +624,9 @@ def inline_helpers(ast, path, node, depth=2, exprs=False, keep=()):
     return rec(node, depth)
 
 
-PURE_METHODS = ("len", "wrapping_add_signed", "wrapping_add", "wrapping_sub", "as_ptr", "is_empty", "min", "max")
+PURE_METHODS = ("len", "wrapping_add_signed", "wrapping_add", "wrapping_sub", "as_ptr", "is_empty", "min", "max",
+                "add", "sub", "offset", "wrapping_offset", "cast", "wrapping_byte_offset", "unsigned_abs")
+PURE_FNS = set()      # local functions whose body is one pure expression (filled while loading the tree)
 
 
 def _pure(e):
@@ -624,6 +645,38 @@ def _pure(e):
         return e["op"] in ("+", "-", "*", "/", "<", "<=", ">", ">=", "==", "!=", "&", "|") and _pure(e["left"]) and _pure(e["right"])
     if t == "MethodCall":
         return e["method"] in PURE_METHODS and _pure(e["receiver"]) and all(_pure(a) for a in e["args"])
+    if t == "Call":
+        return _const_pure(e)
+    return False
+
+
+def _const_pure(e):
+    """no memory is read and nothing is changed: locals, literals, casts, arithmetic, pointer arithmetic, size_of, calls of PURE_FNS"""
+    if not isinstance(e, dict):
+        return False
+    t = e.get("t")
+    if t == "Lit":
+        return True
+    if t == "PathExpr":
+        return True
+    if t in ("Paren", "Cast"):
+        return _const_pure(e["expr"])
+    if t == "Unary":
+        return e["op"] in ("-", "!") and _const_pure(e["expr"])
+    if t == "Binary":
+        return e["op"] in ("+", "-", "*", "/", "<", "<=", ">", ">=", "==", "!=", "&", "|", "<<", ">>") and _const_pure(e["left"]) and _const_pure(e["right"])
+    if t == "MethodCall":
+        return e["method"] in PURE_METHODS and e["method"] not in ("len", "is_empty", "as_ptr") and _const_pure(e["receiver"]) and all(_const_pure(a) for a in e["args"])
+    if t == "MacroExpr" and e["mac"]["name"].split("::")[-1] in ("addr_of", "addr_of_mut") and e["mac"].get("args") and len(e["mac"]["args"]) == 1:
+        return _place(e["mac"]["args"][0])       # the address of a place: nothing is read
+    if t == "Call":
+        f = e["func"]
+        while isinstance(f, dict) and f.get("t") == "Paren":
+            f = f["expr"]
+        nm = f["path"]["name"] if isinstance(f, dict) and f.get("t") == "PathExpr" else None
+        if nm and nm.split("::<")[0].split("::")[-1] in ("size_of", "align_of") and not e["args"]:
+            return True
+        return e.get("t") == "Call" and nm is not None and "::" not in nm.split("::<")[0] and nm.split("::<")[0] in PURE_FNS and all(_const_pure(a) for a in e["args"])
     return False
 
 
@@ -729,6 +782,11 @@ def _has_kind_shallow(node, kinds):
     return False
 
 
+def _walk_pat_idents(p):
+    from common import walk
+    return [n for n in walk(p) if n.get("t") == "PIdent" and n["name"] not in ("None",)]
+
+
 def _unguard_block(block, exit_kind):
     """exit_kind: 'Return' (block is in tail position of a function) or 'Continue' (block is a loop body)."""
     st = list(block["stmts"])
@@ -753,6 +811,23 @@ def _unguard_block(block, exit_kind):
                           "else": {"t": "BlockExpr", "sp": block["sp"], "label": None, "block": rest}}
                 UNGUARD_COUNT[0] += 1
                 return {**block, "stmts": st[:i] + [{"t": "ExprStmt", "sp": s_["sp"], "expr": new_if, "semi": False}]}
+        # let x = match e { Some(p) => p, None => return V };   ->   let Some(x) = e else { return V };
+        if s_["t"] == "Local" and s_.get("else") is None and isinstance(s_.get("init"), dict) and s_["init"].get("t") == "Match" and s_["pat"]["t"] == "PIdent" \
+                and len(s_["init"]["arms"]) == 2 and all(a_.get("guard") is None for a_ in s_["init"]["arms"]):
+            arms_ = s_["init"]["arms"]
+            div = [a_ for a_ in arms_ if isinstance(a_["body"], dict) and a_["body"].get("t") == exit_kind]
+            keep = [a_ for a_ in arms_ if a_ not in div]
+            if len(div) == 1 and len(keep) == 1:
+                kb = keep[0]["body"]
+                while isinstance(kb, dict) and kb.get("t") == "Paren":
+                    kb = kb["expr"]
+                bound = [n_["name"] for n_ in _walk_pat_idents(keep[0]["pat"])]
+                if _ident(kb) is not None and bound == [_ident(kb)]:
+                    newpat = _rename_pats(keep[0]["pat"], {_ident(kb): s_["pat"]["name"]})
+                    s_ = {**s_, "pat": newpat, "init": s_["init"]["expr"],
+                          "else": {"t": "BlockExpr", "sp": div[0]["sp"], "label": None,
+                                   "block": {"t": "Block", "sp": div[0]["sp"], "stmts": [{"t": "ExprStmt", "sp": div[0]["sp"], "expr": div[0]["body"], "semi": True}]}}}
+                    st[i] = s_
         # let PAT = e else { return X };  REST   ->   if let PAT = e { REST } else { X }
         if s_["t"] == "Local" and s_.get("else") is not None and s_.get("init") is not None:
             eb = s_["else"]
@@ -812,3 +887,134 @@ def _unguard_loops(node):
     if out.get("t") in ("While", "ForLoop", "Loop") and isinstance(out.get("body"), dict):
         out["body"] = _unguard_block(out["body"], "Continue")
     return out
+
+
+# --------------------------------------------------------------------------- statement-list normal form used by match_stmts
+
+ADJ_METHODS = PURE_METHODS + ("wrapping_offset", "offset", "add", "sub", "wrapping_byte_offset", "cast", "unsigned_abs", "checked_shl", "unwrap_or")
+
+
+def _loadish(e):
+    """side-effect free (may read memory): paths, literals, fields, derefs, casts, arithmetic, comparisons, pointer arithmetic"""
+    if not isinstance(e, dict):
+        return False
+    t = e.get("t")
+    if t in ("Lit", "PathExpr"):
+        return True
+    if t in ("Paren", "Cast", "Unary", "Reference"):
+        return _loadish(e["expr"])
+    if t == "Field":
+        return _loadish(e["base"])
+    if t == "Index":
+        return _loadish(e["expr"]) and _loadish(e["index"])
+    if t == "Binary":
+        return e["op"] in ("+", "-", "*", "/", "<", "<=", ">", ">=", "==", "!=", "&", "|", "&&", "||", "<<", ">>") and _loadish(e["left"]) and _loadish(e["right"])
+    if t == "MethodCall":
+        return e["method"] in ADJ_METHODS and _loadish(e["receiver"]) and all(_loadish(a) for a in e["args"])
+    return False
+
+
+def _place(e):
+    """a place expression: local, field of a place, deref of a place"""
+    while isinstance(e, dict) and e.get("t") == "Paren":
+        e = e["expr"]
+    if not isinstance(e, dict):
+        return False
+    if e.get("t") == "PathExpr" and len(e["path"]["segs"]) == 1:
+        return True
+    if e.get("t") == "Field":
+        return _place(e["base"])
+    if e.get("t") == "Unary" and e.get("op") == "*":
+        return _place(e["expr"])
+    return False
+
+
+def _alias_init(init):
+    """`&P`, `&mut P`, `addr_of!(P)`, `addr_of_mut!(P)` for a place P -> ('ref'|'raw', P) else None"""
+    e = init
+    while isinstance(e, dict) and e.get("t") == "Paren":
+        e = e["expr"]
+    if isinstance(e, dict) and e.get("t") == "Reference" and _place(e["expr"]):
+        return "ref", e["expr"]
+    if isinstance(e, dict) and e.get("t") == "MacroExpr" and e["mac"]["name"].split("::")[-1] in ("addr_of", "addr_of_mut") and e["mac"].get("args") and len(e["mac"]["args"]) == 1 \
+            and _place(e["mac"]["args"][0]):
+        return "raw", e["mac"]["args"][0]
+    return None
+
+
+def _simplify_alias(node, name, kind, place):
+    """replace uses of an alias: `*name` / `(*name)` -> place; for a reference also `name.m(..)` -> `place.m(..)` and `name.f` -> `place.f`"""
+    if isinstance(node, list):
+        return [_simplify_alias(x, name, kind, place) for x in node]
+    if not isinstance(node, dict):
+        return node
+    t = node.get("t")
+    if t == "Unary" and node.get("op") == "*":
+        inner = node["expr"]
+        while isinstance(inner, dict) and inner.get("t") == "Paren":
+            inner = inner["expr"]
+        if _ident(inner) == name:
+            return {"t": "Paren", "sp": node["sp"], "expr": place}
+    if kind == "ref" and t == "MethodCall" and _ident(_strip_ref(node["receiver"])) == name:
+        return {**node, "receiver": {"t": "Paren", "sp": node["sp"], "expr": place}, "args": _simplify_alias(node["args"], name, kind, place)}
+    if kind == "ref" and t == "Field" and _ident(_strip_ref(node["base"])) == name:
+        return {**node, "base": {"t": "Paren", "sp": node["sp"], "expr": place}}
+    return {k: (_simplify_alias(v, name, kind, place) if isinstance(v, (dict, list)) else v) for k, v in node.items()}
+
+
+def normalize_stmts(stmts, light=False):
+    """behaviour-preserving normal form of a statement list (applied to pattern and subject by match_stmts): unsafe blocks in statement position
+    are spliced; a local that only names a place (`let m = &mut P;`, `let m = addr_of_mut!(P);`) is replaced by the place; a side-effect-free local used
+    only by the statement that directly follows it is substituted into that statement; nested blocks likewise."""
+    from common import walk
+    st = _flatten_unsafe(list(stmts)) if not light else list(stmts)
+    out = []
+    i = 0
+    while i < len(st):
+        s_ = st[i]
+        if s_.get("t") == "Local" and s_["pat"]["t"] == "PIdent" and not s_["pat"]["mut"] and not s_["pat"]["by_ref"] and s_.get("init") is not None and s_.get("else") is None \
+                and not s_["pat"]["name"].startswith("__"):
+            name = s_["pat"]["name"]
+            rest = st[i + 1:]
+            rebound = any(n.get("t") == "PIdent" and n["name"] == name for r in rest for n in walk(r))
+            al = _alias_init(s_["init"])
+            if al is not None and not rebound:
+                kind, place = al
+                root = place
+                while isinstance(root, dict) and root.get("t") in ("Paren", "Field", "Unary"):
+                    root = root["expr"] if root["t"] in ("Paren", "Unary") else root["base"]
+                rname = _ident(root)
+                reassigned = any(n.get("t") == "Assign" and _ident(n["left"]) == rname for r in rest for n in walk(r))
+                other_use = False
+                new_rest = _simplify_alias(rest, name, kind, place)
+                other_use = any(_ident(n) == name for r in new_rest for n in walk(r))
+                if not reassigned and not other_use:
+                    st = st[:i] + new_rest
+                    continue
+            if _const_pure(s_["init"]) and not rebound and not any(n.get("t") == "Assign" and _ident(n["left"]) == name for r in rest for n in walk(r)):
+                # no memory is read: the value is the same wherever it is computed
+                roots = {x for x in _idents_in(s_["init"])}
+                reassigned = any(n.get("t") in ("Assign",) and _ident(n["left"]) in roots for r in rest for n in walk(r)) or \
+                    any(n.get("t") == "Binary" and n["op"].endswith("=") and n["op"] not in ("==", "!=", "<=", ">=") and _ident(n["left"]) in roots for r in rest for n in walk(r))
+                if not reassigned:
+                    st = st[:i] + _subst(rest, {name: {"t": "Paren", "sp": s_["init"]["sp"], "expr": s_["init"]}})
+                    continue
+            if not light and _loadish(s_["init"]) and rest and not rebound:
+                uses_next = _count_uses(rest[0], name)
+                uses_later = sum(_count_uses(r, name) for r in rest[1:])
+                if uses_next >= 1 and uses_later == 0 and rest[0].get("t") in ("ExprStmt", "Local"):
+                    st = st[:i] + [_subst(rest[0], {name: {"t": "Paren", "sp": s_["init"]["sp"], "expr": s_["init"]}})] + rest[1:]
+                    continue
+        out.append(s_)
+        i += 1
+    # nested blocks
+    def rec(n):
+        if isinstance(n, list):
+            return [rec(x) for x in n]
+        if isinstance(n, dict):
+            n = {k: (rec(v) if isinstance(v, (dict, list)) else v) for k, v in n.items()}
+            if n.get("t") == "Block":
+                n["stmts"] = normalize_stmts(n["stmts"], light)
+            return n
+        return n
+    return [rec(x) for x in out]
